@@ -340,17 +340,20 @@ MANIFEST_TEXT = {
     ),
     "C16": dict(
         category="proof",
-        technique="Verus contracts over vstd's HashMap model on the guard and insert regions of Network::connect",
+        technique="Verus contracts over vstd's HashMap model on the guard / insert regions of Network::connect, the skip region of Network::forward and the reverse step of Network::backward",
         design_ref="DESIGN.md §5 C16",
         text="Proof for all maps and all index pairs: on the two regions of Network::connect that touch the connection table (index / duplicate "
              "guard, final insert) Verus shows (a) whenever the call returns, every earlier mapping is still present and unchanged and the new "
              "one is recorded (rejecting is the only alternative), and (b) a valid pair whose source and target differ from every connected "
              "source and target is never rejected; (c) on the skip-connection region of Network::forward: for every network, index and table, the "
              "input handed to layer i is the configured accumulation (add / subtract / multiply / mean / overwrite) of its ordinary input with "
-             "activated[source] reshaped to its shape, and is untouched when no connection targets i. Failing connect obligations are replayed by a "
-             "native enumeration of call pairs on real networks.",
-        note="vstd's specification of std::collections::HashMap; the element-count comparison in the middle of connect() is dropped from the "
-             "unit; the forward-pass accumulation clause is not yet covered.",
+             "activated[source] reshaped to its shape, and is untouched when no connection targets i; (d) on the closure body of Network::backward: "
+             "every layer is differentiated at exactly that processed input with the gradient handed on by its successor, and the gradient it hands on is "
+             "its own input gradient plus the input gradients of all layers its input is additively connected to (chain rule at a fan-out). Failing "
+             "obligations are replayed natively (call pairs for connect; exact difference quotients on small linear networks for the gradients).",
+        note="vstd's specification of std::collections::HashMap; abstract tensor algebra and abstract per-layer backward functions (C01 decides those); "
+             "the element-count comparison in the middle of connect() is dropped from the unit; that the summed gradient is the derivative is the "
+             "multivariate chain rule (trusted mathematics, confirmed numerically by the native search).",
     ),
     "C17": dict(
         category="proof",
